@@ -580,7 +580,7 @@ pub fn fam_serial(tier: Tier) -> Vec<Config> {
                                 }
                                 if retry == "delay" {
                                     cfg.clock_budget = 1;
-                                    cfg.clock_step = d;
+                                    cfg.clock_step = d + Duration::from_secs(1);
                                 }
                                 let gates = nconc + nser + usize::from(retry != "none")
                                     + if lazy { cfg.feats.len() } else { 0 };
@@ -659,8 +659,8 @@ pub fn fam_retry(tier: Tier) -> Vec<Config> {
                             cfg.conc_builder = Some(conc);
                             cfg.plan.gates = GateMode::Steps;
                             if delay {
-                                cfg.clock_budget = if tier == Tier::Quick { 1 } else { 2 };
-                                cfg.clock_step = Duration::from_millis(2500);
+                                cfg.clock_budget = 2;
+                                cfg.clock_step = Duration::from_secs(3);
                             }
                             let info = cfg.scen_infos()[0].clone();
                             let keys = callable_keys(&info, before, after);
